@@ -131,12 +131,16 @@ def modeld_path(pid):
     return os.path.join(BUILD, pid, "modeld")
 
 
+PID_ALIAS = {}   # a property check sets e.g. {"SQLM": "C09", "KVW": "C09"}: use its own freshly built driver
+
+
 def model_batch(suite, cases, pid=None):
     """Run the extracted model of property `pid` (default: derived from the suite name
     'c18.xyz' -> C18) on a list of case values; returns the list of outputs."""
     if not cases:
         return []
     pid = pid or suite.split(".")[0].upper()
+    pid = PID_ALIAS.get(pid, pid)
     data = "\n".join(suite + " " + enc(c) for c in cases) + "\n"
     def _big_stack():
         import resource
@@ -383,6 +387,35 @@ def load_findings(pid):
             if m and m.group(1) == pid:
                 fixed.append({"commit": m.group(2), "text": m.group(3)})
     return opens, fixed
+
+
+def all_open_findings():
+    """{cls: set(property ids)} over every findings file"""
+    import glob
+    out = {}
+    for fn in [FINDINGS_FILE] + sorted(glob.glob(os.path.join(VERIF, "findings.d", "*.txt"))):
+        if os.path.exists(fn):
+            for line in open(fn):
+                m = re.match(r"open:\s+property=(\S+)\s+class=(\S+)\s", line.strip())
+                if m:
+                    out.setdefault(m.group(2), set()).add(m.group(1))
+    return out
+
+
+def drop_foreign(suites, pid):
+    """A shared suite also evaluates the statements of sibling properties.  A failure whose class is an open
+    finding of ANOTHER property only is that property's concern: it is counted, not reported here."""
+    opens = all_open_findings()
+    for s in suites:
+        keep = []
+        for v in s.violations:
+            owners = opens.get(v["cls"], set())
+            if owners and pid not in owners:
+                s.count("finding_of_other_property:" + v["cls"])
+            else:
+                keep.append(v)
+        s.violations = keep
+    return suites
 
 
 # ----------------------------------------------------------------------------- results
